@@ -47,6 +47,13 @@ def evalRecipe (st : DState) (toks : List String) (impl : String) : Eval :=
   | "mmap" :: rest => evalMmap st rest
   | "tmp" :: rest => evalTmp st rest impl
   | ["drop", _] => { st := st, model := "ok", spec := some "ok" }
+  | ["obj", "clone_from", src, dst]   -- `dst.clone_from(&src)`: by contract the same as `dst = src.clone()`
+  | ["obj", "clone", src, dst] =>
+    -- `Clone`: the copy is the same value under another name, whatever the kind
+    let cp {β} (h : Std.HashMap String β) : Std.HashMap String β := match h[src]? with | some x => h.insert dst x | none => h.erase dst
+    { st := { st with raws := cp st.raws, ivs := cp st.ivs, bvs := cp st.bvs, sps := cp st.sps, rls := cp st.rls, wms := cp st.wms,
+                      huges := cp st.huges, hraws := cp st.hraws },
+      model := "ok", spec := some "ok" }
   | _ => { st := st, model := "driver:unknown-op" }
 
 structure Stats where
